@@ -623,8 +623,17 @@ class Server(object):
         data = encode_request(req, version)
         return self.send_bytes(data, identity)
 
-    def send_bytes(self, data, identity):
-        req = decode_request(data)
+    def send_bytes(self, data, identity, strict_decode=True):
+        try:
+            req = decode_request(data)
+        except Exception:
+            if strict_decode:
+                raise
+            # what the session answers when it cannot parse the request
+            resp = self.engine.build_error_response(
+                contents.ProtocolVersion(1, 0), enums.ResultReason.INVALID_MESSAGE,
+                "Error parsing request message. See server logs for more information.")
+            return Result(encode_response(resp, (1, 0)), version=(1, 0), response=resp)
         try:
             resp, max_size, rpv = self.engine.process_request(req, identity)
         except exceptions.KmipError as e:
